@@ -1142,6 +1142,13 @@ class H2Connection:
         if origin is not None and stream_id is not None:
             raise ValueError("Must not provide both origin and stream_id")
 
+        if self.config.client_side:
+            # On an idle connection the state machine cannot tell the roles
+            # apart yet: check explicitly.
+            raise ProtocolError(
+                "Clients cannot advertise alternative services."
+            )
+
         self.state_machine.process_input(
             ConnectionInputs.SEND_ALTERNATIVE_SERVICE
         )
